@@ -253,6 +253,8 @@ class SymExec:
                 self.ret = self.ev(s.value)
             elif isinstance(s, ast.Expr) and isinstance(s.value, ast.Constant):
                 continue
+            elif isinstance(s, ast.Pass):
+                continue
             else:
                 raise AnalysisError(f"murmur2: unsupported statement {type(s).__name__}")
 
@@ -394,6 +396,24 @@ def rule_murmur(ctx):
         ctx.rep.ob(R, ctx.site(fi, fi.node), f"{fi.qualname}|tail-{e}", ok, f"tail + finaliser for length % 4 == {e} differs from Java's (bytes {list(range(e))} mixed in unsigned, multiply iff >= 1, then >>>13, *m, >>>15)")
 
 
+def _expand_chain(c, name_node, at):
+    """Expression a local holds at `at` when it is built by a straight chain  x = A; x op= B; x op= C  that dominates `at`."""
+    nm = name_node.id
+    ds = local_defs(c, nm)
+    if not ds or not all(c.dominates(a, b) for a, b in zip(ds, ds[1:])) or not c.dominates(ds[-1], at):
+        return None
+    expr = None
+    for d in ds:
+        st = d.stmt
+        if isinstance(st, ast.Assign) and len(st.targets) == 1 and expr is None:
+            expr = st.value
+        elif isinstance(st, ast.AugAssign) and expr is not None:
+            expr = ast.BinOp(left=expr, op=st.op, right=st.value)
+        else:
+            return None
+    return expr
+
+
 def rule_width(ctx):
     R = "width"
     ctx.rep.rule(R, "interval: every value that is shifted right, reduced modulo the partition count, or returned lies in [0, 2^32) "
@@ -409,7 +429,8 @@ def rule_width(ctx):
             if not a.within(0, MASK32):
                 bad.append((node, a))
 
-    res = interval.run_function(fi.node, {fi.params()[0]: interval.TOP}, observe=obs)
+    # Java arrays (and Kafka keys) are shorter than 2**31 bytes: the comparison with the Java client is only defined there
+    res = interval.run_function(fi.node, {fi.params()[0]: interval.TOP}, observe=obs, len_hi=(1 << 31) - 1)
     ctx.ob(R, fi, fi.node, seen[0] >= 3, f"only {seen[0]} right shifts seen", text="shifts-seen")
     ctx.ob(R, fi, fi.node, not bad, f"right shift of a value outside [0,2^32): {[(unparse(n)[:40], repr(iv)) for n, iv in bad[:2]]}", text="shift-operands")
     ctx.ob(R, fi, fi.node, res.returned is not None and res.returned.within(0, MASK32), f"murmur2 returns {res.returned}", text="return-range")
@@ -418,12 +439,11 @@ def rule_width(ctx):
     rets = [r for r in c.nodes if r.kind == "return" and isinstance(r.ast.value, ast.Subscript)]
     ok = len(rets) == 1
     if ok:
-        idxn = unparse(rets[0].ast.value.slice)
-        ds = [d for d in local_defs(c, idxn)]
-        vals = [unparse(d.stmt) for d in ds]
         ps = fc.params()
-        ok = vals == [f"{idxn} = murmur2({ps[1]})", f"{idxn} &= 2147483647", f"{idxn} %= len({ps[2]})"] and all(c.dominates(a, b) for a, b in zip(ds, ds[1:])) and c.dominates(ds[-1], rets[0]) \
-            and unparse(rets[0].ast.value.value) == ps[2]
+        sl = rets[0].ast.value.slice
+        expr = _expand_chain(c, sl, rets[0]) if isinstance(sl, ast.Name) else sl
+        want = f"(murmur2({ps[1]}) & 2147483647) % len({ps[2]})"
+        ok = expr is not None and unparse(expr) == want and unparse(rets[0].ast.value.value) == ps[2]
     ctx.ob(R, fc, fc.node, ok, "keyed partition is not all_partitions[(murmur2(key) & 0x7fffffff) % len(all_partitions)]", text="index-chain")
 
 
@@ -445,13 +465,25 @@ def rule_route(ctx):
                 if isinstance(x, ast.Name):
                     reads.add(x.id)
     ctx.ob(R, fc, kt, ps[3] not in reads and "random" not in reads, f"keyed path reads {sorted(reads & {ps[3], 'random'})}: the partition of a keyed record depends on availability / chance", text="keyed-independent")
-    unk = c.reachable([m for m, l in kt.succ if l == "T"], avoid=[m for m, l in kt.succ if l == "F"], include_src=True)
-    at = [t for t in unk if t.kind == "test" and unparse(t.ast) == ps[3]]
-    ok = len(at) == 1
+    # unkeyed: evaluate the `key is None` arm for an empty and a non-empty `available`
+    from .. import finite
+    arm = None
+    for n in ast.walk(fc.node):
+        if isinstance(n, ast.If) and is_none_test(n.test) is not None and unparse(is_none_test(n.test)) == ps[1]:
+            arm = n.body
+        elif isinstance(n, ast.If) and is_none_test(n.test, negate=True) is not None and unparse(is_none_test(n.test, negate=True)) == ps[1]:
+            arm = n.orelse or None
+    ok = arm is not None
     if ok:
-        rt = [r for r in c.nodes if r.kind == "return" and c.dominated_by_branch(at[0], "T", r)]
-        rf = [r for r in c.nodes if r.kind == "return" and c.dominated_by_branch(at[0], "F", r) and r in unk]
-        ok = len(rt) == 1 and unparse(rt[0].ast.value) == f"random.choice({ps[3]})" and len(rf) == 1 and unparse(rf[0].ast.value) == f"random.choice({ps[2]})"
+        got = {}
+        for label, av in (("empty", []), ("some", ["A1"])):
+            env = {ps[3]: av, ps[2]: ["P0", "P1"], "__calls__": {"random.choice": lambda x: ("choice", tuple(x))}}
+            try:
+                finite.run(arm, env, set())
+                got[label] = None
+            except finite._Return as r:
+                got[label] = r.v
+        ok = got == {"empty": ("choice", ("P0", "P1")), "some": ("choice", ("A1",))}
     ctx.ob(R, fc, kt, ok, "unkeyed records do not go to an available partition whenever one is available", text="unkeyed-available")
     fp = ctx.fn("aiokafka.producer.producer.AIOKafkaProducer._partition")
     cp = ctx.cfg(fp)
